@@ -62,7 +62,9 @@ def pools(quick):
         opts = [opt(),
                 opt(tags("", "S", "SW", "", "", "SWEEL"), treat=4, err=[[]], clr=1),
                 opt(treat=2, err=[[True], [False]]),
-                opt(treat=0, err=[[True]], clr=2)]
+                opt(treat=0, err=[[True]], clr=2),
+                # treated as one of the special levels ("is gated as the level it is treated as": always admitted)
+                opt(treat=8, err=[[]])]
     else:
         values = [-8, 3, 12, 17]
         titles = ["NOTICE", "notice", "Hint", "warn", "WARN", "h\u00e9llo", "\u00d1u", "x", "R&D<a\\b>", "q\"\u2028\t", ""]
@@ -71,7 +73,8 @@ def pools(quick):
                 opt(treat=2, err=[[True], [False]]),
                 opt(tags("", "\u00e9", "", "abc", "", ""), treat=6, err=[[False, True]], clr=2),
                 opt(treat=0, err=[[False], []]),
-                opt(treat=5, err=[[True, False]])]
+                opt(treat=5, err=[[True, False]]),
+                opt(treat=8, err=[[]]), opt(treat=9, err=[[]])]
     return dict(values=values, titles=titles, opts=opts)
 
 
@@ -438,7 +441,7 @@ def run(ctx, replay_path):
         "every behaviour runs in a fresh worker process (testing mode); byte-identical recordings of a shared prefix are merged",
         "text is projected to Unicode code points (stray UTF-8 bytes = -1); case folding modelled for ASCII and Latin-1 letters, "
         "the other characters used in titles are caseless (titles include ones that need JSON escapes - backslash, double quote, TAB, U+2028, markup - and the empty title)",
-        "treated-as targets are Panic..Trace; gating of levels registered without a treated-as level is C01's subject and not compared here",
+        "treated-as targets are built-in levels (Panic..Trace, Always, OK); gating of levels registered without a treated-as level is C01's subject and not compared here",
         "RegWithPrintToErrorDevice() without arguments counts as a request (documented usage); several booleans: the last one wins",
         "the package default logger is set to Off and redirected to recorders (ParseLevel logs its failures there)",
         "nested contexts: after every step the round trips of every level and the whole ParseLevel table are also asked from "
